@@ -6,12 +6,12 @@
 (* mechanism transcription against the same clauses.                                   *)
 EXTENDS Integers, Sequences, FiniteSets, TLC
 
-Probes == {"p1", "p2", "p3", "p4", "p5", "bad", "bad2"}
+Probes == {"p1", "p2", "p3", "p4", "p5", "p6", "bad", "bad2"}
 Valid(p) == p \notin {"bad", "bad2"}
 Fns == {"f", "g"}
 \* functions a probe's selector names (they are instrumented while the probe is active)
 Touches(p) == CASE p \in {"p1", "p2", "p5", "bad"} -> {"f"}
-                [] p = "p3" -> {"f", "g"}
+                [] p \in {"p3", "p6"} -> {"f", "g"}
                 [] p \in {"p4", "bad2"} -> {"g"}
 
 \* lifeworld: f(x): a = x+1; b = 2a; r = g(b); return r      g(y): a = y+100; return a
@@ -24,6 +24,7 @@ EventsOf(p, fn, v) ==
     [] p = "p4" /\ fn = "f" -> << {<<"a", 2 * v + 102>>} >>
     [] p = "p4" /\ fn = "g" -> << {<<"a", v + 100>>} >>
     [] p = "p5" /\ fn = "f" -> << {<<"a", v + 1>>, <<"b", 2 * v + 2>>} >>
+    [] p = "p6" /\ fn = "f" -> << {<<"a", 2 * v + 102>>} >>      \* f > g > a : f is only a waypoint
     [] OTHER -> <<>>
 
 \* abstract state: status[p] \in {"new", "active", "done"}, expect[p] = events owed so far
